@@ -176,8 +176,9 @@ def main():
         names = [n for n in names if n in only or any(n.startswith(o) for o in only if o.endswith("-"))]
     seed_args = "".join(f" {a}" for a in sys.argv[1:] if a.startswith("--seed="))
     results = {}
-    if os.path.exists(os.path.join(SEEDED, "RESULTS.json")):
-        results = json.load(open(os.path.join(SEEDED, "RESULTS.json")))
+    resfile = os.path.join(SEEDED, "RESULTS.json" if not seed_args else "RESULTS_seed" + seed_args.split("=")[1] + ".json")
+    if os.path.exists(resfile):
+        results = json.load(open(resfile))
     for n in names:
         d = os.path.join(SEEDED, n)
         prop = n.split("-")[0]
@@ -200,8 +201,9 @@ def main():
         meta = {"breaks_property": prop, "change": what, "needs_to_manifest": needs, "origin": "fresh sub-agent given only the property text and a scratch worktree",
                 "confirmed_by_me": conf, "what_i_ran": "tools/confirm_seeded.py (scratch worktree: suite with patch, demo with patch, demo without) and tools/seeded_meta.py --run (git -C /repo apply; ./check; git checkout)",
                 "check_result": results.get(n)}
-        json.dump(meta, open(os.path.join(d, "meta.json"), "w"), indent=1)
-    json.dump(results, open(os.path.join(SEEDED, "RESULTS.json"), "w"), indent=1)
+        if not seed_args:
+            json.dump(meta, open(os.path.join(d, "meta.json"), "w"), indent=1)
+    json.dump(results, open(resfile, "w"), indent=1)
 
 
 if __name__ == "__main__":
